@@ -236,9 +236,15 @@ def replay_lanczos(rep, light=False, traces=None):
     # ---- lanczos_arpack: only promised to find the ground state of the sector; needs overlap with it
     sector_min = min(case['hdrs'][ix[0] - 1]['D'][ix[1] - 1][0] for ix in case['idx'])
     if Eex == sector_min:
-        with warnings.catch_warnings():
-            warnings.simplefilter('ignore')
-            E, psi = kb.lanczos_arpack(B.op(), B.vec(), {})
+        import scipy.sparse.linalg
+        try:
+            with warnings.catch_warnings():
+                warnings.simplefilter('ignore')
+                E, psi = kb.lanczos_arpack(B.op(), B.vec(), {})
+        except (scipy.sparse.linalg.ArpackError, scipy.sparse.linalg.ArpackNoConvergence):
+            # ARPACK itself declines (e.g. the zero operator: "starting vector is zero"); nothing is promised then
+            rep.ctx.notes['arpack_declined'] = rep.ctx.notes.get('arpack_declined', 0) + 1
+            return
         rep.count('lanczos_arpack', 0)
         x = B.arr(psi)
         if abs(E - Eex) > tol or abs(np.linalg.norm(x) - 1) > TOL or rel(A @ x - E * x) > 1.0e-7 * B.scale:
@@ -579,8 +585,6 @@ def mc_cfgs(tier):
                          MaxBlocks=2, MaxDim=2, MaxGsRows=2)),
             ('herm3', dict(Kinds={'lanczos', 'evo'}, Flavours={'herm'}, Charges={0}, Sizes={3}, MaxBlocks=1, MaxDim=3,
                            Perms={'cyc'}, UnitKinds={'gau'}, AVals='<-AValsSmall')),
-            ('gs3', dict(Kinds={'gs'}, Flavours={'herm'}, Charges={0}, Sizes={3}, MaxBlocks=1, MaxDim=3, MaxGsRows=3,
-                         DVals='<-DValsSmall', AVals='<-AValsSmall')),
             LADDER]
 
 
